@@ -340,4 +340,33 @@ theorem C19_handle_enable_effect (v : UpdVariant) (e : Env) (s : State) (x : CPr
       simp only [hu]
       exact find_replace_same s x.name p p' hp this.2
 
+/-- **C19 (what a handle reads back is the server's state).** For a handle of an existing
+proxy, whatever its snapshot says: after a `Save` (hence `Enable`, `Disable`) that reports
+success, the handle shows exactly the record the server now has under that name — listen
+address as the server spells it, upstream, enabled. -/
+theorem C19_handle_reads_back (v : UpdVariant) (e : Env) (s : State) (x : CProxy) (p : ProxyRec)
+    (hc : x.created = true) (hp : s.find x.name = some p)
+    (hok : (run v e s (.save x)).failed = false) :
+    ∃ p', (run v e s (.save x)).state.find x.name = some p' ∧
+      afterSave x (run v e s (.save x)) = CProxy.ofRec p' := by
+  have hstep : ∀ body : Body, step v e s (req .post ["proxies", x.name] body) = hUpdate e s x.name body := by
+    intro body
+    have h1 : (Method.post == Method.get) = false := by decide
+    simp [step, req, routeMethods, dispatch, List.contains, List.elem, h1]
+  unfold afterSave
+  rw [hok]
+  simp only [run, hc, if_true, send] at hok ⊢
+  simp only [hstep] at hok ⊢
+  simp only [hUpdate, withProxy, hp, proxyBody_decode] at hok ⊢
+  cases hu : updateProxy e s p ⟨x.name, x.listen, x.upstream, x.enabled⟩ with
+  | mk p' okk =>
+    cases okk with
+    | false => simp [hu, isError, errResp, Err.status] at hok
+    | true =>
+      have := updateProxy_ok_enabled e s p _ p' hu
+      refine ⟨p', ?_, ?_⟩
+      · simp only [hu]
+        exact find_replace_same s x.name p p' hp this.2
+      · simp [hu, Api.ok]
+
 end Toxi.Client
